@@ -100,6 +100,13 @@ FLOATS = [
 SEC = MPQ + "security.rs"
 EXTRA = [
     # default SecurityLimits (first `impl Default for SecurityLimits`)
+    ("sec_max_archive_gib", SEC, r"impl\s+Default\s+for\s+SecurityLimits.*?max_archive_size\s*:\s*" + NUM + r"\s*\*\s*1024\s*\*\s*1024\s*\*\s*1024", 4),
+    ("sec_max_hash_entries", SEC, r"impl\s+Default\s+for\s+SecurityLimits.*?max_hash_entries\s*:\s*" + NUM, 1000000),
+    ("sec_max_block_entries", SEC, r"impl\s+Default\s+for\s+SecurityLimits.*?max_block_entries\s*:\s*" + NUM, 1000000),
+    ("sec_max_sector_shift", SEC, r"impl\s+Default\s+for\s+SecurityLimits.*?max_sector_shift\s*:\s*" + NUM, 20),
+    ("sec_table_tolerance", SEC, r"archive_size\.saturating_add\(\s*" + NUM, 65536),
+    ("sec_header_min", SEC, r"\(\s*" + NUM + r"\s*\.\.=\s*[0-9]+\s*\)\.contains\(&header_size\)", 32),
+    ("sec_header_max", SEC, r"\(\s*[0-9]+\s*\.\.=\s*" + NUM + r"\s*\)\.contains\(&header_size\)", 1024),
     ("sec_max_ratio", SEC, r"impl\s+Default\s+for\s+SecurityLimits.*?max_compression_ratio\s*:\s*" + NUM, 1000),
     ("sec_max_decompressed_mib", SEC, r"impl\s+Default\s+for\s+SecurityLimits.*?max_decompressed_size\s*:\s*" + NUM + r"\s*\*\s*1024\s*\*\s*1024", 100),
     ("sec_max_session_mib", SEC, r"impl\s+Default\s+for\s+SecurityLimits.*?max_session_decompressed\s*:\s*" + NUM + r"\s*\*\s*1024\s*\*\s*1024", 1024),
